@@ -207,6 +207,108 @@ def run(prog, ctx):
                 "untouched" % (upd.id, what, wit), upd.id, span)
     res.rule("C06.E", n_e, 3, "sites of CpcUnion::update that change the union")
 
+    # ---------------- C06.S a sketch's surprising-value table lists 1-bits only while its window sits at offset 0 (flavors Sparse,
+    # Hybrid, Pinned); once the window slides the early-zone entries are surprising *zeros* and the zone's default is all ones.  A
+    # routine that ORs table entries into a matrix is therefore reached only with a source whose flavor is below Sliding; a Sliding
+    # source goes through its own matrix reconstruction.  By value: the exact path condition of each call of such a routine under a
+    # source holding a Sliding-level coupon count (one level of callers when the source is a parameter of a private helper).
+    def _is_or_table(f):
+        tys = [f.local_ty(i) for i in range(1, f.argc + 1)]
+        return f.kind == "fn" and any("PairTable" in t and t.startswith("&") and not t.startswith("&mut") for t in tys) and any(t.replace(" ", "") == "&mut[u64]" for t in tys) \
+            and any(True for _ in C.buffer_stores(prog, f))
+    ortab = [f for f in ufns if _is_or_table(f)]
+    n_s = 0
+
+    _df = [f for f in prog.fns.values() if f.item_name == "determine_flavor" and not f.promoted]
+    sliding = None
+    if _df:
+        try:
+            sliding = formula.evaluate(("call", _df[0].id, (("const", 11), ("const", 40000))), {"@prog": prog})
+        except formula.Uneval:
+            sliding = None
+
+    def not_excluded(sx, blk):
+        """True: some path to the block carries no condition that is definitely false when every flavor computed on the way is
+        Sliding (conditions on anything else are left open); False: every path is refuted; None: flavors not evaluable"""
+        paths = sx.path_conditions(blk)
+        if paths is None or sliding is None:
+            return None
+        for pth in paths:
+            dead = False
+            for c, tv in pth:
+                env = {"@prog": prog, "@fn:determine_flavor": (lambda *a: sliding), "@fn:flavor": (lambda *a: sliding)}
+                v = None
+                for _ in range(8):
+                    try:
+                        v = formula.evaluate(c, env)
+                        break
+                    except formula.Uneval as u:
+                        k = str(u)
+                        if k.startswith("call ") or k in env:
+                            v = None
+                            break
+                        env[k] = 11
+                    except (TypeError, IndexError, ZeroDivisionError):
+                        v = None
+                        break
+                if v is None or isinstance(v, tuple) or not sym.contains(c, lambda t: t[0] == "call" and t[1].rsplit("::", 1)[-1] in ("determine_flavor", "flavor")):
+                    continue
+                if (tv[0] == "eq" and v != tv[1]) or (tv[0] == "ne" and v in tv[1]):
+                    dead = True
+                    break
+            if not dead:
+                return True
+        return False
+
+    def sketch_root(e):
+        x = C.find_sub(e, lambda t: t[0] == "call" and t[1].rsplit("::", 1)[-1] == "surprising_value_table" and t[2])
+        if x is not None:
+            r = x[2][0]
+        else:
+            x = C.find_sub(e, lambda t: t[0] == "field" and "surprising" in str(t[2]))
+            if x is None:
+                return None
+            r = x[1]
+        while r[0] in ("ref", "deref") and len(r) >= 2 and isinstance(r[-1], tuple):
+            r = r[-1]
+        return r
+    for g in ufns:
+        sg = None
+        for b, site in g.calls():
+            cal = site.get("callee") or ""
+            if cal not in [f.id for f in ortab]:
+                continue
+            sg = sg or Sym(prog, g)
+            root = None
+            for a in site["args"]:
+                root = root or sketch_root(sg.operand(a))
+            n_s += 1
+            if root is None:
+                res.tri(None, "C06.S", "C06.S|%s" % g.id, "source of the table handed to %s not recognised" % cal)
+                continue
+            name = show(root)
+            wit = ""
+            r0 = not_excluded(sg, b)
+            verdict = None if r0 is None else (not r0)
+            if r0 is True and root[0] == "param" and not g.exported:
+                # a private helper: reached with a Sliding source only if some caller lets one through
+                verdict = None
+                for h in ufns:
+                    sh = None
+                    for hb, hsite in h.calls():
+                        if hsite.get("callee") != g.id:
+                            continue
+                        sh = sh or Sym(prog, h)
+                        hr = not_excluded(sh, hb)
+                        if hr is True:
+                            verdict, wit = False, " (through %s, where nothing on the way to the call excludes a Sliding flavor)" % h.id
+                        elif hr is False and verdict is None:
+                            verdict = True
+            res.tri(verdict, "C06.S", "C06.S|%s|%s" % (g.id, name), "%s ORs the surprising-value table of `%s` into a matrix on a path a Sliding-flavor source takes%s: "
+                    "its early-zone entries are surprising zeros and the zone's all-ones default is lost" % (g.id, name, wit), g.id, site.get("span"),
+                    sample={"rule": "C06.S", "fn": g.id, "source": name})
+    res.rule("C06.S", n_s, 2, "calls that OR a source's surprising-value table into a matrix")
+
     # ---------------- C06.O OR-only stores, destination mask, call-site lg agreement
     n_o = 0
     orfns = [f for f in ufns if f.kind == "fn" and any(True for _ in C.buffer_stores(prog, f)) and f.item_name.startswith("or_")]
